@@ -1976,3 +1976,39 @@ V(id='c14-gamma-decreasing-tests-lower-endpoint', prop='C14', file='mpmath/libmp
   old="    elif mpf_gt(a, fzero) and mpf_lt(b, gamma_min_a):", new="    elif mpf_gt(a, fzero) and mpf_lt(a, gamma_min_a):", expect='fire:C-R17:mpi_gamma')
 V(id='c14-gamma-bracket-benign-ge', prop='C14', file='mpmath/libmp/libmpi.py',
   old="    if mpf_gt(a, gamma_min_b):", new="    if mpf_ge(a, gamma_min_b):", expect='silent')
+
+# ---- C14 C-R18 ----
+V(id='c14-log-near-one-guard-abs', prop='C14', file='mpmath/libmp/libelefun.py',
+  old="    if 0 <= mag <= 1:", new="    if abs_mag <= 1:", expect='fire:C-R18:mpf_log')
+V(id='c14-log-near-one-guard-benign', prop='C14', file='mpmath/libmp/libelefun.py',
+  old="    if 0 <= mag <= 1:", new="    if mag == 0 or mag == 1:", expect='silent')
+
+# ---- rules added after seeding round 4 ----
+V(id='c14-gamma-bracket-misses-minimum', prop='C14', file='mpmath/libmp/libmpi.py',
+  old="gamma_min_a = from_float(1.46163214496)", new="gamma_min_a = from_float(1.4616321449684)", expect='fire:C-R17:<module>')
+V(id='c17-degree-by-rounded-division', prop='C17', file='mpmath/libmp/libelefun.py',
+  old="mpf_degree = def_mpf_constant(degree_fixed)", new="def mpf_degree(prec, rnd=round_fast):\n    return mpf_div(mpf_pi(prec+10), from_int(180), prec, rnd)",
+  expect='fire:K-R2:mpf_degree')
+V(id='c24-ci-si-threshold-half', prop='C24', file='mpmath/libmp/libhyper.py',
+  old="    asymptotic = mag-1 > math.log(wp, 2)", new="    asymptotic = mag >= bitcount(wp)", expect='fire:T-R9:mpf_ci_si')
+V(id='c24-ci-si-threshold-benign', prop='C24', file='mpmath/libmp/libhyper.py',
+  old="    asymptotic = mag-1 > math.log(wp, 2)", new="    asymptotic = mag > bitcount(wp)", expect='silent')
+V(id='c29-error-floor-from-list-ends', prop='C29', file='mpmath/calculus/polynomials.py',
+  old="        size = max([1] + [abs(r) for r in roots])", new="        size = max(1, abs(roots[0]), abs(roots[-1]))", expect='fire:R-P4:polyroots')
+V(id='c33-lu-check-after-store', prop='C33', file='mpmath/matrices/linalg.py',
+  old="        if ctx.absmin(A[n - 1,n - 1]) <= tol:\n            raise ZeroDivisionError('matrix is numerically singular')\n        # cache decomposition\n        if not overwrite and isinstance(orig, ctx.matrix):\n            # invalidate, store, validate: an interrupt between the stores\n            # must not leave factors under the wrong precision\n            orig._LU_prec = 0\n            orig._LU = (A, p)\n            orig._LU_prec = ctx.prec\n",
+  new="        # cache decomposition\n        if not overwrite and isinstance(orig, ctx.matrix):\n            # invalidate, store, validate: an interrupt between the stores\n            # must not leave factors under the wrong precision\n            orig._LU_prec = 0\n            orig._LU = (A, p)\n            orig._LU_prec = ctx.prec\n        if ctx.absmin(A[n - 1,n - 1]) <= tol:\n            raise ZeroDivisionError('matrix is numerically singular')\n",
+  expect='fire:D-LU:LU_decomp')
+V(id='c38-cmemo-closure-cache', prop='C38', file='mpmath/functions/bessel.py',
+  old="    name = f.__name__\n    def f_wrapped(ctx):\n        cache = ctx._misc_const_cache\n", new="    name = f.__name__\n    cache = {}\n    def f_wrapped(ctx):\n",
+  expect='fire:X-R9:c_memo.f_wrapped')
+V(id='c33-cmemo-closure-cache', prop='C33', file='mpmath/functions/bessel.py',
+  old="    name = f.__name__\n    def f_wrapped(ctx):\n        cache = ctx._misc_const_cache\n", new="    name = f.__name__\n    cache = {}\n    def f_wrapped(ctx):\n",
+  expect='fire:D-R3:c_memo.f_wrapped')
+V(id='c43-reduction-without-quarter-fold', prop='C43', file='mpmath/math2.py',
+  old="    if r > 0.25:\n        r -= 0.5\n        n += 1\n", new="", expect='fire:F-R10:_reduce_half')
+V(id='c13-nthroot-nudge-on-root', prop='C13', file='mpmath/libmp/libelefun.py',
+  old="    man = nthroot_fixed(man+rnd_shift, n, prec2, exp1)", new="    man = nthroot_fixed(man, n, prec2, exp1) + rnd_shift", expect='fire:B-R4i:mpf_nthroot')
+V(id='c34-series-lookup-outside-precision-region', prop='C33', file='mpmath/calculus/odes.py',
+  old="        orig = ctx.prec\n        try:\n            ctx.prec = workprec\n            ser, xa, xb = get_series(x)\n", new="        orig = ctx.prec\n        ser, xa, xb = get_series(x)\n        try:\n            ctx.prec = workprec\n",
+  expect='fire:D-ODE:interpolant')
